@@ -2,6 +2,9 @@
    mode "ast":  one AST per line (prefix form, see harness/c03_driver.cpp); output, TAB separated:
         gen_C  gen_Py  safeC  safePy  norm(trC)  norm(trPy)  norm(readC gen_C)|NONE  norm(readPy gen_Py)|NONE
         sitesC  sitesPy      (minimal unsafe sub-ASTs, prefix form, separated by " ;; ")
+   mode "scale": "<kind ode|algebraic|nla|external> TAB <name of the unknown's primary variable|-> TAB
+                 <name=num/den,text of factor,text of 1/factor;...> TAB <AST of the equation as written>"
+                 -> the AST after ScaleDefs.analysed_ast (unit scaling, then NLA -> MINUS / swap), prefix form
    mode "read": "<C text> TAB <Python text>" per line -> "norm(readC text)|NONE TAB norm(readPy text)|NONE" *)
 open Gen_model
 
@@ -33,6 +36,34 @@ let b x = if x then "1" else "0"
 let shown t = implode (show_tree (norm t))
 let shown_opt = function Some t -> shown t | None -> "NONE"
 
+(* Coq numbers from OCaml ints (glue) *)
+let rec pos_of_int n = if n <= 1 then XH else if n land 1 = 1 then XI (pos_of_int (n lsr 1)) else XO (pos_of_int (n lsr 1))
+let z_of_int n = if n = 0 then Z0 else if n > 0 then Zpos (pos_of_int n) else Zneg (pos_of_int (- n))
+
+let scale_case line =
+  match String.split_on_char '\t' line with
+  | [kind; unknown; factors; astl] ->
+    let tbl = Hashtbl.create 16 in
+    List.iter (fun ent ->
+        if ent <> "" then
+          match String.split_on_char '=' ent with
+          | name :: rest ->
+            (match String.split_on_char ',' (String.concat "=" rest) with
+             | [frac; t; ti] ->
+               (match String.split_on_char '/' frac with
+                | [n; d] -> Hashtbl.replace tbl name (int_of_string n, int_of_string d, t, ti)
+                | _ -> failwith "bad fraction")
+             | _ -> failwith "bad factor entry")
+          | [] -> ())
+      (String.split_on_char ';' factors);
+    let get v = try Hashtbl.find tbl (implode v) with Not_found -> (1, 1, "1", "1") in
+    let env = { sf = (fun v -> let (n, d, _, _) = get v in { qnum = z_of_int n; qden = pos_of_int d });
+                sf_text = (fun v -> let (_, _, t, _) = get v in explode t);
+                sf_inv_text = (fun v -> let (_, _, _, ti) = get v in explode ti) } in
+    let k = match kind with "ode" -> KOde | "nla" -> KNla | "external" -> KExternal | _ -> KAlgebraic in
+    implode (ast_line (analysed_ast env k (explode unknown) (read_ast astl)))
+  | _ -> "BADLINE"
+
 let () =
   let mode = Sys.argv.(1) in
   let ic = open_in Sys.argv.(2) in
@@ -47,6 +78,7 @@ let () =
           Printf.printf "%s\t%s\t%s\t%s\t%s\t%s\t%s\t%s\t%s\t%s\n" (one_line (implode gc)) (one_line (implode gp))
             (b (safeC a)) (b (safePy a)) (shown (trC a)) (shown (trPy a))
             (shown_opt (readC gc)) (shown_opt (readPy gp)) (sites LC profile_C) (sites LPy profile_Py)
+        | "scale" -> print_endline (scale_case line)
         | "read" ->
           (match String.split_on_char '\t' line with
            | [c; p] -> Printf.printf "%s\t%s\n" (shown_opt (readC (explode c))) (shown_opt (readPy (explode p)))
